@@ -74,7 +74,7 @@ inline Plan Gen(uint64_t seed)
          default:
             if (gw == GW_WS) p.push_back("back");
             else if ((duplex)&&(wl.oneIn(2))) p.push_back(wl.oneIn(5) ? ("rsetenc " + I(wl.below(10))) : std::string("back"));
-            else if (((gw == GW_BIN)||(gw == GW_TMPL)||(gw == GW_TEXT)||(gw == GW_SLIP)||((gw == GW_RAW)&&(minchunk == 0)))&&(wl.oneIn((gw == GW_TMPL) ? 4 : 10))) p.push_back("reset");   // both ends Reset() at a quiescent point (a reconnect), then carry on
+            else if (((gw == GW_BIN)||(gw == GW_TMPL)||(gw == GW_TEXT)||(gw == GW_SLIP)||((gw == GW_RAW)&&(minchunk == 0)))&&(wl.oneIn((gw == GW_TMPL) ? 4 : 10))) p.push_back("reset " + I(wl.below(3)));   // both ends Reset() at a quiescent point (a reconnect), then carry on (text gateway: the new stream may use another line terminator)
             else if (((gw == GW_BIN)||(gw == GW_TMPL))&&(wl.oneIn(4))) p.push_back("setenc " + I(wl.below(10)));
             else p.push_back("out 0");
          break;
@@ -315,7 +315,12 @@ inline void Exec(const Plan & plan, RunResult & res)
             h.a2b.SetSched(true, wholeBuf); h.a2b.SetSched(false, wholeBuf); h.b2a.SetSched(true, wholeBuf); h.b2a.SetSched(false, wholeBuf);
             const int bnd = 64 + 4*(int)(h.sent.size() + h.sentBack.size()) + (int)(((h.gw == GW_RAW)&&(!h.sent.empty())) ? (2*(h.sent[0].size()/8192)) : 0);
             for (int i=0; (i<bnd)&&((h.AllDelivered() == false)||(h.SenderIdle() == false)); i++) {h.DoOut(0); h.DoIn(0); h.DoBack(); h.CheckPrefix("pre-reset drain");}
-            if ((h.AllDelivered())&&(h.a2b.q.empty())&&(h.b2a.q.empty())) {h.S()->Reset(); h.R()->Reset(); res.stats.inc("p.reset_and_reuse");}
+            if ((h.AllDelivered())&&(h.a2b.q.empty())&&(h.b2a.q.empty()))
+            {
+               h.S()->Reset(); h.R()->Reset(); res.stats.inc("p.reset_and_reuse");
+               // a fresh stream may use a different line terminator than the one before it (within one stream a switch would be ambiguous: CR then LF is one CRLF)
+               if ((h.gw == GW_TEXT)&&(t.size() >= 2)) {PlainTextMessageIOGateway * tg = dynamic_cast<PlainTextMessageIOGateway *>(h.S()); static const char * eols[] = {"\r\n", "\n", "\r"}; if (tg) {tg->SetOutgoingEndOfLineString(eols[(h.cfg.i("eol", 0) + ToU(t[1])) % 3]); res.stats.inc("p.reset_with_other_line_terminator");}}
+            }
             else res.stats.inc("p.reset_skipped_not_quiescent");
             h.a2b.SetSched(true, sv[0]); h.a2b.SetSched(false, sv[1]); h.b2a.SetSched(true, sv[2]); h.b2a.SetSched(false, sv[3]);
          }
